@@ -19,7 +19,13 @@ func (u *Unit) val(s *State, v ssa.Value) Term {
 	case *ssa.Const:
 		return u.ss.constTerm(x)
 	case *ssa.Function:
-		return Term{S: fmt.Sprintf("fn.%s", sanitize(x.String())), Sort: "Int", T: x.Type()}
+		t := u.declOnce("fn."+sanitize(x.String()), "Int")
+		t.T = x.Type()
+		if !u.declared["nz:"+t.S] {
+			u.declared["nz:"+t.S] = true
+			s.assume(fmt.Sprintf("(> %s 0)", t.S))
+		}
+		return t
 	case *ssa.Builtin:
 		return Term{S: "0", Sort: "Int"}
 	}
@@ -262,6 +268,9 @@ func calleeName(c *ssa.CallCommon) string {
 	}
 	if b, ok := c.Value.(*ssa.Builtin); ok {
 		return "builtin " + b.Name()
+	}
+	if n, ok := c.Value.Type().(*types.Named); ok {
+		return "dynamic " + typeNameFull(n) // call of a value of a named function type
 	}
 	return "dynamic"
 }
@@ -585,6 +594,7 @@ func (u *Unit) step(s *State, in ssa.Instruction) {
 			r := u.newAddr(s, "new."+cellName(x))
 			r.T = x.Type()
 			s.regs[x] = r
+			s.allocTypes = append(s.allocTypes, allocType{r.S, et})
 			a := AddrDeref{r, et}
 			u.store(s, a, u.ss.zero(et))
 			s.addrs[x] = a
@@ -693,6 +703,7 @@ func (u *Unit) step(s *State, in ssa.Instruction) {
 		r := u.newAddr(s, "closure")
 		r.T = x.Type()
 		s.regs[x] = r
+		s.closT[r.S] = s.closures[x]
 	case *ssa.MakeSlice:
 		r := u.newAddr(s, "mkslice")
 		ln, cp := u.val(s, x.Len), u.val(s, x.Cap)
